@@ -92,7 +92,26 @@ ADD_FORMS = [
     ("out", lambda f, x, y: getattr(np, f)(x, y, out=_out(x, y))),
     ("inplace", lambda f, x, y: {"add": operator.iadd, "subtract": operator.isub}[f](x, y)),
     ("outer", lambda f, x, y: getattr(np, f).outer(x, y)),
+    # the reduction spelling of x + y0: the start value takes part like an operand of +
+    ("reduce-initial", lambda f, x, y: np.add.reduce(x[None, ...], axis=0, initial=y.reshape(-1)[0])),
+    ("sum-initial", lambda f, x, y: x[None, ...].sum(axis=0, initial=y.reshape(-1)[0])),
+    ("np.sum-initial-0d", lambda f, x, y: np.sum(x[None, ...], axis=0, initial=unyt_array(np.array(float(y.reshape(-1)[0].d)), y.units))),
+    # the operator applied to a SLICE of a larger array: the result is written back through item assignment
+    ("inplace-slice", lambda f, x, y: _inplace_slice(f, x, y)),
 ]
+REDUCE_FORMS = ("reduce-initial", "sum-initial", "np.sum-initial-0d")
+
+
+def _inplace_slice(f, x, y):
+    parent = unyt_array(np.concatenate([np.asarray(x.d), np.asarray(x.d)]), x.units)
+    n = x.size
+    if f == "add":
+        parent[:n] += y
+    else:
+        parent[:n] -= y
+    if not np.array_equal(np.asarray(parent.d)[n:], np.asarray(x.d)):
+        raise AssertionError("the rest of the parent changed")
+    return parent[:n]
 
 
 def expected_additive(f, m1, m2, xs, ys):
@@ -123,7 +142,11 @@ def check_additive(ctx, f, form, ffunc, sp1, sp2, shape, vals):
         return
     if form == "out" and shape == "scalar":
         return
+    if form in REDUCE_FORMS + ("inplace-slice",) and (shape == "scalar" or (f != "add" and form in REDUCE_FORMS)):
+        return
     xs, ys = np.array(x.d, dtype=float), np.array(y.d, dtype=float)
+    if form in REDUCE_FORMS:
+        ys = ys.reshape(-1)[:1]
     if form == "outer":
         exp = expected_additive(f, m1, m2, xs.reshape(xs.shape + (1,) * ys.ndim), ys)
     else:
